@@ -15,7 +15,7 @@ from scripted_server import ScriptedServer, server_init
 TRUSTED_BASE = ["Model/Exit.v: the exit-status machine of VNCDoCLIFactory / build_tool / the timeout timer, hand-written; which "
                 "reactor events a given server behaviour produces is Twisted's and the kernel's business and is observed, not proved",
                 "real vncdo processes against scripted loopback servers (harness/scripted_server.py)"]
-ASSUMPTIONS = ["the wall-clock bound is measured with a generous constant (T + 4 s; interpreter start-up is about 1 s)",
+ASSUMPTIONS = ["the wall-clock bound is measured with a constant covering interpreter start-up (T + 2.5 s; start-up is about 0.5-1 s)",
                "PARTIAL by nature: the theorems cover the status machine for every event sequence; the mapping from server behaviour to "
                "events and the wall clock are sampled by the campaign"]
 
@@ -140,6 +140,16 @@ def scenarios(rng, tmp, tier):
                 S.append(dict(name=f"{vs}: '{sname}': unknown message right after ServerInit",
                               actions=handshake(v) + [("send", b"\x63"), ("silent",)], args=["pause", "0.5"] + args, want="nonzero",
                               events=["lostclean", "stop"]))
+        # the script has only a few milliseconds of work left when the connection ends
+        quick = ["key", "a", "key", "b", "key", "c"]
+        S.append(dict(name=f"{vs}: 'key a key b key c': clean close right after ServerInit", actions=handshake(v) + [("close",)], args=quick,
+                      want="nonzero", events=["lostclean", "stop"]))
+        S.append(dict(name=f"{vs}: 'key a key b key c': unknown message right after ServerInit",
+                      actions=handshake(v) + [("send", b"\x63"), ("silent",)], args=quick, want="nonzero", events=["lostclean", "stop"]))
+        # slow (not silent) handshake, then an update that never comes: the timeout counts from the start
+        S.append(dict(name=f"{vs}: 2.5 s before ServerInit, then silence, --timeout 3",
+                      actions=handshake(v)[:-1] + [("sleep", 2.5), handshake(v)[-1], ("silent",)], args=["capture", cap], timeout=3,
+                      want="nonzero", events=["timeout", "stop"]))
         S.append(dict(name=f"{vs}: silent before the banner, --timeout 2", actions=[("silent",)], args=["key", "a"], timeout=2,
                       want="nonzero", events=["timeout", "stop"]))
         S.append(dict(name=f"{vs}: silent after the banner, --timeout 2", actions=handshake(v)[:2] + [("silent",)], args=["key", "a"], timeout=2,
@@ -160,7 +170,8 @@ def scenarios(rng, tmp, tier):
                   want="nonzero", events=["completed", "losterror", "stop"], big=True))
     if tier == "quick":
         # a third of the grid per run, always with the special cases
-        keep = [s for i, s in enumerate(S) if s.get("big") or s["actions"] is None or (i + rng.randrange(3)) % 3 == 0]
+        keep = [s for i, s in enumerate(S) if s.get("big") or s["actions"] is None or "2.5 s before" in s["name"]
+                or "key a key b key c" in s["name"] or (i + rng.randrange(3)) % 3 == 0]
         return keep
     return S
 
@@ -272,7 +283,7 @@ def run(tier, seed, model):
                 why = f"exit status {rc} although every command was carried out and vncdo closed the connection ({out.strip()[-120:]})"
             elif rc == 0 and not eof and sc["actions"] is not None:
                 why = "exit status 0 but the server never saw vncdo close the connection"
-            elif T is not None and wall > T + 4.0:
+            elif T is not None and wall > T + 2.5:
                 why = f"--timeout {T}: the process needed {wall:.1f} s"
             if why:
                 camp.oracle_failures.append({"kind": "oracle", "property": "C09", "case": {"scenario": sc["name"]},
@@ -294,7 +305,7 @@ def run(tier, seed, model):
                  "authentication: a well-behaved server, and close / reset / unknown message / unknown encoding / silence (+ --timeout) "
                  "at the point the script depends on the server; timeouts before and after the banner and during a long pause; "
                  "12 MiB of output against a server that reads all, stops reading (--timeout) or resets after 64 KiB; judged: 0 iff "
-                 "the scenario is a completed script closed by vncdo (server saw EOF), termination, wall time <= T + 4 s; the "
+                 "the scenario is a completed script closed by vncdo (server saw EOF), termination, wall time <= T + 2.5 s; the "
                  "status machine compared on the scenario's event sequence; non-trivial = scenario")
     return camp
 
